@@ -305,6 +305,12 @@ impl InMemoryZoneDiffBuilder {
         self.added.remove(&(owner.clone(), rtype));
     }
 
+    /// Forget all additions recorded for the given name and the names
+    /// below it.
+    pub fn clear_added_below(&mut self, name: &StoredName) {
+        self.added.retain(|(owner, _), _| !owner.ends_with(name));
+    }
+
     /// Forget that resource records of the given RRset were removed.
     pub fn clear_removed(&mut self, owner: &StoredName, rtype: Rtype) {
         self.removed.remove(&(owner.clone(), rtype));
